@@ -11,7 +11,17 @@ P1 error funnel: every return is check_result(al, ...) or a 0 that is reached
 G1 integer-valued arguments are validated by a check_*int* helper for that index;
 G2 stores through al->derivs / al->hes are guarded by the pointer being set;
 G3 functions that provide no derivatives raise the derivative error when asked;
-T1 the GSL error handler is switched off before the first registration.
+T1 the GSL error handler is switched off before the first registration;
+S1 formula identity: the body of every binding that stores derivatives is executed symbolically
+   (mpsa/gslsym.py) into expressions V, D_i, H_ij over the arguments and GSL primitive applications;
+   D_i must be identical to dV/dx_i and H_ij to d2V/dx_i dx_j, the right-hand sides obtained by
+   symbolic differentiation with the derivative rules of mpsa/gslprims.py (DLMF facts) and the
+   identity decided in random models of the function field (closed forms expanded, other
+   transcendentals free up to their recurrences) - no mp or GSL code is run;
+S2 special points: a constant stored under an equality guard (x == 0, |x| == 1) must equal the
+   two-sided limit of the derivative's closed form, computed with exact rational Laurent series
+   (mpsa/gslseries.py); where the one-sided limits differ or diverge the binding must store NaN
+   (which check_result turns into an error).
 """
 import re
 from ..cfg import Facts, kids, strip, walk, cv, render, short_loc, call_args, TRANSPARENT
@@ -21,12 +31,20 @@ from .. import units
 LEVEL = "other"
 TECHNIQUE = ("static analysis: registry-driven enumeration of all exported GSL bindings, constant "
              "subscript bounds against the registered arity (exact), CFG guard/dominance rules for the "
-             "error funnel, integer-argument checks and derivative pointer guards")
+             "error funnel, integer-argument checks and derivative pointer guards; symbolic execution of "
+             "each binding into value/derivative expressions, symbolic differentiation with a table of "
+             "derivative rules for the GSL primitives and identity testing in random models of the "
+             "function field; exact Laurent-series limits at guarded special points")
 LEVEL_TEXT = ("For each of the ~344 registered functions the arity bounds are decided exactly (constant "
               "subscripts vs registered arity), and the error discipline (no return without "
               "check_result or a preceding error, guarded derivative stores, validated integer "
-              "arguments) is decided on every CFG path. Whether the hand-derived formulas equal the "
-              "true derivatives is numerical and not decided.")
+              "arguments) is decided on every CFG path. For the 131 bindings with derivative code the "
+              "hand-derived formulas are decided as identities: each stored first/second derivative "
+              "expression equals the symbolic derivative of the returned value expression (323 stored "
+              "entries), and each constant stored at a guarded special point equals the exact two-sided "
+              "limit (98 points) or an error is reported there. Not decided: floating-point accuracy of "
+              "the formulas (cancellation, overflow), GSL's own values, and special points of "
+              "transcendentals without a series in the table (listed in the evidence).")
 LEVEL_NOTE = ("Trusted: clang 14 front end/CFG, tool/mpx.cc, tool/stubs/funcadd.h (field names of ASL's "
               "arglist), the rule module. The GSL library itself is outside the analysis.")
 DESIGN_REF = "DESIGN.md section 4, C16"
@@ -40,11 +58,24 @@ EXPLANATION = (
     "check_int_arg / check_uint_arg / check_bessel_args / check_zero_func_args for that index; "
     "(G2) every store through al->derivs / al->hes is control-dependent on the pointer(s); (G3) "
     "a function without derivative code raises the 'derivatives are not provided' error when "
-    "derivatives are requested; (T1) gsl_set_error_handler_off precedes the registrations. Not "
-    "decided: agreement of the derivative formulas with numerical differentiation.")
-ASSUMPTIONS = ["AMPL calls a registered function with al->n equal to the registered arity (or >= -(nargs+1) "
+    "derivatives are requested; (T1) gsl_set_error_handler_off precedes the registrations; (S1) "
+    "for every binding that stores derivatives, the stored expressions D_i, H_ij (obtained by symbolic "
+    "execution of the body, helpers and macros included) are identical to the first and second symbolic "
+    "derivatives of the returned value expression, using derivative rules and three-term recurrences "
+    "of the GSL primitives written from the standard references; identities are decided by evaluation "
+    "in random models of the function field (polynomial identity testing; an equivalent rewriting of a "
+    "formula, e.g. with another classical recurrence, stays silent); (S2) constants stored under an "
+    "equality guard are the exact two-sided limits of the derivative (rational Laurent series), and "
+    "where the one-sided limits differ the binding stores NaN, i.e. reports an error. Not decided: "
+    "rounding behaviour of the formulas and the accuracy of GSL itself.")
+ASSUMPTIONS = ["S1/S2: the value expression is what the GSL primitive computes (GSL implements the function its manual names); "
+               "identities are tested in 28+ random models per entry, a false identity passes with negligible probability",
+               "AMPL calls a registered function with al->n equal to the registered arity (or >= -(nargs+1) "
                "for variadic registrations) and with derivs/hes arrays of the corresponding sizes"]
-TRUSTED = ["clang 14 front end + CFG builder", "tool/mpx.cc", "tool/stubs/funcadd.h", "mpsa/rules/C16.py"]
+TRUSTED = ["clang 14 front end + CFG builder", "tool/mpx.cc", "tool/stubs/funcadd.h", "mpsa/rules/C16.py",
+           "mpsa/gslsym.py (symbolic executor, differentiation, models)", "mpsa/gslseries.py (Laurent series)",
+           "mpsa/gslprims.py (closed forms, derivative rules and recurrences of the GSL primitives: DLMF 5-10, 13, 14, 18, 19, 25; "
+           "GSL's conventions gegenpoly(lambda=0), Pcomp sign, scaled Bessel factors)"]
 
 ERROR_SETTERS = ("error", "eval_error", "format_eval_error", "deriv_error", "format_error")
 CHECKERS = ("check_args", "check_int_arg", "check_uint_arg", "check_bessel_args", "check_zero_func_args",
@@ -118,7 +149,7 @@ def run(rep, ctx):
     fn = [r"ampl.*", r"funcadd_ASL", r"check_.*", r"error|deriv_error|eval_error|format_eval_error|format_error",
           r"[A-Za-z_0-9]+"]
     F = Facts(export_many([dict(unit="src/gsl/amplgsl.cc", fn=fn, repo=repo,
-                                var=[r"[A-Z_0-9]*ARGNAMES", r"DEFAULT_ARGS"])]))
+                                var=[r"[A-Z_0-9]*ARGNAMES", r"DEFAULT_ARGS", r"DEBYE_[A-Z_0-9]*"])]))
     # tables of integer-argument names used by WRAP_DISCRETE: index -> has a name
     name_tables = {}
     for qn, v in F.vars.items():
@@ -409,7 +440,8 @@ def run(rep, ctx):
                     if c["k"] == "CallExpr" and c.get("callee") == "check_bessel_args":
                         herr = True
             live = sorted(stored)
-            want = {i_ + j_ * (j_ + 1) // 2 for j_ in live for i_ in live if i_ <= j_}
+            # packed upper triangle by rows, as test/gsl-test.cc indexes it: (i, j) -> i (2n - i - 1) / 2 + j
+            want = {i_ * (2 * n_eff - i_ - 1) // 2 + j_ for j_ in live for i_ in live if i_ <= j_}
             okh = want <= hst or herr
             g5.check(okh, "%s|hessian" % name, short_loc(f.loc),
                      "%s: second derivatives stored for all pairs of %s%s" % (name, live, " (or an error is raised under al->hes)" if herr else ""),
@@ -425,7 +457,69 @@ def run(rep, ctx):
                          name, " (every argument is an integer argument checked by check_*int_arg)" if all_int and not deriv_err_ok else ""),
                      "%s stores no derivatives and raises no error when al->derivs is set: AMPL would "
                      "use uninitialised derivative values" % name)
+    formula_rules(rep, F, regs)
     return rep
+
+
+def formula_rules(rep, F, regs):
+    """S1/S2: the stored derivative expressions are the derivatives of the value expression."""
+    from .. import gslsym as GS, gslprims as GP
+    s1 = rep.rule("C16.S1", "ALGEBRA",
+                  "each stored first/second derivative is identical, as an expression over the arguments and "
+                  "GSL primitives, to the symbolic derivative of the returned value (identity decided in random "
+                  "models of the function field)", floor=290)
+    s2 = rep.rule("C16.S2", "ALGEBRA",
+                  "a constant stored under an equality guard (x == c) is the two-sided limit of the derivative's "
+                  "closed form (exact Laurent series), or the binding reports an error there", floor=45)
+    seen, uncovered, nb = set(), {}, 0
+    for (name, f, kind, nargs, call) in regs:
+        if f is None or f.cfg is None or f.id in seen or kind == 2:
+            continue
+        seen.add(f.id)
+        try:
+            r = GS.analyse_binding(F, f, nargs if nargs and nargs > 0 else None, GP.T, GP.canon)
+        except GS.Unsupported as e:
+            v_ = FuncView(f)
+            if any(m in ("derivs", "hes") and v_.is_store(node) for (node, m, idx) in v_.accesses()):
+                uncovered[name] = "symbolic execution: %s" % e
+            continue
+        if not r["stored"]:
+            continue
+        nb += 1
+        for key in r["stored"]:
+            o = r["outputs"].get(key)
+            label = "%s|%s%d" % (name, "derivs" if key[0] == "d" else "hes", key[1])
+            if o is None or (o["compared"] < 2 and not o["mismatch"]):
+                uncovered[label] = "; ".join("%s (%d)" % kv for kv in sorted((r.get("why") or {}).items())[:3]) or \
+                    "derivative with respect to an integer-valued / constant argument, or no admissible sample point"
+                continue
+            bad = [m for m in o["mismatch"] if m]
+            what = "d%s/d(arg %s)" % ("2" if len(o["slot"]) == 2 else "", ",".join(str(i) for i in o["slot"]))
+            s1.check(not o["mismatch"], label, short_loc(f.loc),
+                     "%s: stored %s equals the symbolic derivative of the returned value in %d model evaluations" % (name, what, o["compared"]),
+                     "%s: stored %s is not the derivative of the returned value: e.g. arguments %s: the stored "
+                     "expression evaluates to %.12g, the derivative of the value to %.12g (%d of %d model evaluations differ)" % (
+                         name, what, bad[0]["args"] if bad else "?", bad[0]["stored"] if bad else float("nan"),
+                         bad[0]["expected"] if bad else float("nan"), len(o["mismatch"]), o["compared"]))
+        for tag, sp in sorted((r.get("special") or {}).items(), key=str):
+            key, i, c, dv = tag
+            label = "%s|%s%d|arg%d==%g%s" % (name, "derivs" if key[0] == "d" else "hes", key[1], i, c,
+                                            "".join("|arg%d=%d" % kv for kv in dv))
+            if sp["status"] == "uncovered":
+                uncovered[label] = sp.get("why", "")
+                continue
+            if sp["status"] == "error-reported":
+                s2.ok(label, short_loc(f.loc), "%s: NaN is stored at the special point, so check_result reports an error" % name)
+                continue
+            s2.check(sp["status"] == "ok", label, short_loc(f.loc),
+                     "%s: the constant %.12g stored at the special point is the two-sided limit of the derivative" % (name, sp.get("stored", 0.0)),
+                     ("%s: %.12g is stored silently at a point where the derivative does not exist (one-sided limits of the "
+                      "derivative of the value: %s)" % (name, sp.get("stored", 0.0), sp.get("limits")))
+                     if sp["status"] == "no-derivative" else
+                     ("%s: the constant %.12g stored at the special point differs from the limit %s of the derivative of the value"
+                      % (name, sp.get("stored", 0.0), sp.get("limit"))))
+    rep.extra["formula_bindings"] = nb
+    rep.extra["formula_uncovered"] = uncovered
 
 
 def in_n_loop(g, node):
